@@ -29,6 +29,13 @@ import (
 // signature of a checksum mismatch: RenameTable copying `created`, finding 45)
 var c04renamedOverDropped bool
 
+// c04opens counts file database opens of this process: on non-Windows Stor.Close never unmaps, so
+// each Create/Open/Check leaks a 64 MB mapping and mmap fails (ENOMEM, vm.max_map_count) after
+// about 60000 opens. The suite stops cleanly before that; the thorough tier is sharded.
+var c04opens int
+
+const c04openBudget = 24000
+
 var c04tables = []string{"ta", "tb", "tc"}
 var c04cols = []string{"a", "b", "c", "d"}
 
@@ -128,6 +135,10 @@ func TestVerifC04Reopen(t *testing.T) {
 	db19.MakeSuTran = func(ut *db19.UpdateTran) *core.SuTran { return core.NewSuTran(nil, true) }
 	MakeSuTran = func(qt QueryTran) *core.SuTran { return core.NewSuTran(nil, true) }
 	for h := 0; h < n; h++ {
+		if c04openBudget-c04opens < 200 {
+			tr.Count("stopped: mmap budget of the process reached")
+			break
+		}
 		c04history(tr, r, h, filepath.Join(dir, fmt.Sprintf("c04-%d.db", h)))
 	}
 }
@@ -135,9 +146,12 @@ func TestVerifC04Reopen(t *testing.T) {
 func c04history(tr *lib.Trace, r *rand.Rand, hno int, path string) {
 	os.Remove(path)
 	defer os.Remove(path)
-	db, err := db19.CreateDatabase(path)
-	if err != nil {
-		panic(err)
+	var db *db19.Database
+	var err error
+	c04opens++
+	if msg := lib.Catch(func() { db, err = db19.CreateDatabase(path) }); msg != "" || err != nil {
+		tr.Fail(c04prefix+"-create-fail", fmt.Sprint("CreateDatabase: ", msg, err))
+		return
 	}
 	db19.StartConcur(db, time.Hour)
 	defer func() { lib.Catch(func() { db.Close() }) }()
@@ -260,6 +274,10 @@ func c04history(tr *lib.Trace, r *rand.Rand, hno int, path string) {
 				cmd = fmt.Sprintf("create %s (a,b,c,d) key(a) index(b) in %s(a)%s", tb, t2,
 					[]string{"", " cascade", " cascade update"}[r.Intn(3)])
 			}
+			if r.Intn(8) == 0 {
+				// composite foreign key from a non-unique index (its key also carries the key fields)
+				cmd = fmt.Sprintf("create %s (a,b,c,d) key(a) key(b,c) index(c,d) in %s(b,c)", tb, t2)
+			}
 			if style == 0 && r.Intn(2) == 0 {
 				cmd = fmt.Sprintf("create %s (a,b) key(a)", tb)
 			}
@@ -345,6 +363,17 @@ func c04history(tr *lib.Trace, r *rand.Rand, hno int, path string) {
 				act = fmt.Sprintf("update %s where a = %d set c = %d", tb, r.Intn(8), r.Intn(8))
 			default:
 				act = fmt.Sprintf("insert { a: %d, b: %d, c: %d, d: %d } into %s", r.Intn(8), r.Intn(8), r.Intn(8), r.Intn(8), tb)
+				if r.Intn(3) == 0 {
+					// some fields left empty (an empty foreign key references nothing)
+					var fs []string
+					for _, c := range c04cols {
+						if r.Intn(3) != 0 {
+							fs = append(fs, fmt.Sprintf("%s: %d", c, r.Intn(8)))
+						}
+					}
+					act = fmt.Sprintf("insert { %s } into %s", strings.Join(fs, ", "), tb)
+					tr.Count("op.insert-with-empty-fields")
+				}
 			}
 			msg := lib.Catch(func() {
 				ut := db.NewUpdateTran()
@@ -405,17 +434,31 @@ func c04reopen(tr *lib.Trace, pdb **db19.Database, path string, hist *[]string,
 	tr.Count("op.reopen")
 	if msg := lib.Catch(func() { db.Persist(); db.Close() }); msg != "" {
 		fail("c04-close-panic", msg)
+		lib.Catch(func() { db.Close() })
 		return false
 	}
-	if err := db19.CheckDatabase(path, true); err != nil {
+	c04opens += 2
+	var err error
+	if msg := lib.Catch(func() { err = db19.CheckDatabase(path, true) }); msg != "" {
+		fail("c04-check-panic", "CheckDatabase after a clean close panicked: "+msg)
+		return false
+	}
+	if err != nil {
 		if strings.Contains(err.Error(), "metadata checksum mismatch") {
 			fail(c04cksumSig(), "CheckDatabase after a clean close: "+err.Error())
+		} else if strings.Contains(err.Error(), "foreign key not found") && strings.HasSuffix(err.Error(), `""`) {
+			// full check looks up a foreign key whose trailing fields are empty (finding 46)
+			fail("c04-f46-checkdb-fk-trailing-empty", "CheckDatabase after a clean close: "+err.Error())
 		} else {
 			fail("c04-check-fail", "CheckDatabase after a clean close: "+err.Error())
 		}
 		return false
 	}
-	db2, err := db19.OpenDatabase(path)
+	var db2 *db19.Database
+	if msg := lib.Catch(func() { db2, err = db19.OpenDatabase(path) }); msg != "" {
+		fail("c04-reopen-panic", "OpenDatabase after a clean close panicked: "+msg)
+		return false
+	}
 	if err != nil {
 		if strings.Contains(err.Error(), "metadata checksum mismatch") {
 			fail(c04cksumSig(), "OpenDatabase after a clean close: "+err.Error())
